@@ -19,33 +19,21 @@ theorem refinesB_sound (r a : Eff) (h : refinesB r a = true) : ∀ arg n n', r.r
 
 example : refinesB (.add 1) (.add 1) = true ∧ refinesB .addUnique (.add 1) = false ∧ refinesB .grow .any = true := by decide
 
-/-- the rows of cfg/std.cfg whose configured action is *not* sound today (F6): insertion into a container with unique keys is
-    configured as `push` (+1), but it adds nothing when the key is already present -/
-def knownUnsoundRows : List (String × String) :=
-  [("stdMap", "emplace"), ("stdMap", "emplace_hint"), ("stdMap", "insert"), ("stdMap", "insert_or_assign"), ("stdMap", "try_emplace"),
-   ("stdSet", "emplace"), ("stdSet", "emplace_hint"), ("stdSet", "insert")]
-
-/-- **every other row of the table is sound**: the effect the analysis assumes contains the reference effect, and where the
-    analysis assumes "not empty afterwards" the reference effect guarantees it -/
-theorem cfg_actions_sound_partial :
-    ∀ e ∈ stdCfgContainers, (e.container, e.method) ∉ knownUnsoundRows → entrySound e = true := by
+/-- **every row of the table is sound**: the effect the analysis assumes contains the reference effect, and where the analysis
+    assumes "not empty afterwards" the reference effect guarantees it — decided over the whole generated table -/
+theorem cfg_actions_sound : ∀ e ∈ stdCfgContainers, entrySound e = true := by
   decide +kernel
 
-/-- a row of the table is unsound **iff** it is one of the listed rows and still configured as `push` (today: all eight;
-    after proposed/C02-set-insert-action.diff: none, and then this theorem says that every row is sound).
-    A second class of unsound rows would break this theorem. -/
-theorem cfg_actions_unsound_rows_exact :
-    (stdCfgContainers.filter fun e => !entrySound e) =
-      (stdCfgContainers.filter fun e => knownUnsoundRows.contains (e.container, e.method) && e.action == .push) := by
-  decide +kernel
-
-/-- the full statement ("every configured action is sound") is false for a unique-key insertion configured as `push`:
-    the reference effect of `std::set::insert` (over all overloads: the size does not shrink) allows 1 → 1, inserting a key that
-    is present; the assumed effect of `push` is 1 → 2 -/
+/-- regression (F6, repaired by 8c7e264): the rows cfg/std.cfg had for unique-key insertion — action `push` — are unsound: the
+    reference effect of `std::set::insert` (over all overloads: the size does not shrink) allows 1 → 1, inserting a key that is
+    present; the assumed effect of `push` is 1 → 2.  The same holds for emplace / emplace_hint (and try_emplace / insert_or_assign
+    of std::map). -/
 theorem cfg_set_insert_counterexample :
-    refEffect .set "insert" = some .grow ∧ entrySound ⟨"stdSet", "insert", .push, .noYield⟩ = false ∧
+    refEffect .set "insert" = some .grow ∧
+    (["insert", "emplace", "emplace_hint"].all fun m => !entrySound ⟨"stdSet", m, .push, .noYield⟩) = true ∧
+    (["insert", "emplace", "emplace_hint", "try_emplace", "insert_or_assign"].all fun m => !entrySound ⟨"stdMap", m, .push, .noYield⟩) = true ∧
     ¬ ∀ arg n n', Eff.grow.rel arg n n' → (absEffect .push .noYield).rel arg n n' := by
-  refine ⟨by decide, by decide, ?_⟩
+  refine ⟨by decide, by decide, by decide, ?_⟩
   intro h
   have := h 0 1 1 (by simp [Eff.rel])
   simp [absEffect, Eff.rel] at this
@@ -108,20 +96,19 @@ theorem callOf_sound (e : Entry) (arg : Nat) (h : entrySound e = true) : refines
       simp only [Option.bind, hr, Option.getD]
       exact h.1
 
-/-- the lifting theorem instantiated with the generated table: any sequence of calls of configured member functions other than
-    the listed unsound rows -/
-theorem known_size_sound_table (rows : List (Entry × Nat))
-    (h : ∀ p ∈ rows, p.1 ∈ stdCfgContainers ∧ (p.1.container, p.1.method) ∉ knownUnsoundRows) :
+/-- the lifting theorem instantiated with the generated table: any sequence of calls of configured member functions -/
+theorem known_size_sound_table (rows : List (Entry × Nat)) (h : ∀ p ∈ rows, p.1 ∈ stdCfgContainers) :
     ∀ n, RefRun (rows.map fun p => callOf p.1 p.2) 0 n → ∀ k, absRun (rows.map fun p => callOf p.1 p.2) (some 0) = some k → k = n := by
   apply known_size_sound _ _ 0 (some 0) (by intro k hk; injection hk with hk; omega)
   intro c hc
   obtain ⟨p, hp, rfl⟩ := List.mem_map.mp hc
-  exact callOf_sound p.1 p.2 (cfg_actions_sound_partial p.1 (h p hp).1 (h p hp).2)
+  exact callOf_sound p.1 p.2 (cfg_actions_sound p.1 (h p hp))
 
 example : (⟨"stdVector", "push_back", .push, .noYield⟩ : Entry) ∈ stdCfgContainers ∧
-    (("stdVector", "push_back") : String × String) ∉ knownUnsoundRows := by decide +kernel
+    (⟨"stdSet", "insert", .insert, .noYield⟩ : Entry) ∈ stdCfgContainers := by decide +kernel
 
-/-- with a listed row the lifted statement fails: `std::set<int> s; s.insert(1); s.insert(1);` has size 1, the analysis says 2 -/
+/-- regression (F6): with the row as it was (`push`) the lifted statement fails: `std::set<int> s; s.insert(1); s.insert(1);` has
+    size 1, the analysis said 2 -/
 theorem known_size_unsound_set_insert_counterexample :
     ¬ ∀ n, RefRun [callOf ⟨"stdSet", "insert", .push, .noYield⟩ 0, callOf ⟨"stdSet", "insert", .push, .noYield⟩ 0] 0 n →
         ∀ k, absRun [callOf ⟨"stdSet", "insert", .push, .noYield⟩ 0, callOf ⟨"stdSet", "insert", .push, .noYield⟩ 0] (some 0) = some k → k = n := by
